@@ -71,7 +71,11 @@ const (
 	// with the histogram bucket bound values.
 	DefaultHistogramBucketTagPrecision = uint(6)
 
-	_emitMetricBatchOverhead    = 19
+	// _emitMetricBatchOverhead covers what the size measurement of an empty
+	// batch cannot know: the list header grows with the number of metrics
+	// (compact protocol: up to 5 more bytes).
+	_emitMetricBatchOverhead    = 5
+	_emitMetricBatchMethod      = "emitMetricBatchV2"
 	_minMetricBucketIDTagLength = 4
 	_timeResolution             = 100 * time.Millisecond
 )
@@ -234,16 +238,26 @@ func NewReporter(opts Options) (Reporter, error) {
 		})
 	}
 
-	// Calculate size of common tags
+	// Calculate the size of an empty batch carrying the common tags, written
+	// the way the client emits it (message envelope included, largest
+	// sequence id), with the configured protocol.
 	var (
 		batch = m3thrift.MetricBatch{
 			Metrics:    resourcePool.getMetricSlice(),
 			CommonTags: tags,
 		}
 		proto = resourcePool.getProto()
+		args  = m3thrift.M3EmitMetricBatchV2Args{Batch: batch}
 	)
 
-	if err := batch.Write(proto); err != nil {
+	err = proto.WriteMessageBegin(_emitMetricBatchMethod, thrift.ONEWAY, math.MaxInt32)
+	if err == nil {
+		err = args.Write(proto)
+	}
+	if err == nil {
+		err = proto.WriteMessageEnd()
+	}
+	if err != nil {
 		return nil, errors.WithMessage(
 			err,
 			"failed to write to proto for size calculation",
